@@ -66,28 +66,25 @@ Proof.
       inversion 1; subst; rewrite Ha; cbn; try reflexivity; exact Hs.
 Qed.
 
-Lemma client_ok_inv c : client_ok c = true ->
-  c_id c <> "" /\ c_auth c <> APkjwt /\ c_web c = negb (is_public c).
+Lemma client_ok_inv c : client_ok c = true -> c_id c <> "".
 Proof.
-  unfold client_ok, is_public. intro H. apply andb_true_iff in H as [H1 H2].
-  split; [intro E; rewrite E in H1; discriminate|].
-  destruct (c_auth c); try discriminate; (split; [discriminate|]); cbn;
-    try exact H2; now apply negb_true_iff in H2.
+  unfold client_ok. intros H E. rewrite E in H. discriminate.
 Qed.
 
 (* the Provider router: authenticated = Basic header with the registered secret *)
-Lemma prov_client_proves cl cr id c :
-  prov_client cl cr = inl (id, c_web c) -> find_client cl id = Some c -> client_ok c = true ->
-  proves_identity c cr = true.
+Lemma prov_client_proves cl cr id a c :
+  prov_client cl cr = inl (id, a) -> find_client cl id = Some c ->
+  prov_authenticated c a = true -> proves_identity c cr = true.
 Proof.
-  intros H Hf Hok. destruct (client_ok_inv _ Hok) as [_ [_ Hw]].
-  unfold prov_client, secret_ok in H. unfold proves_identity, presented_secret.
+  intros H Hf Ha.
+  unfold prov_client, secret_ok in H. unfold proves_identity, presented_secret, is_public.
+  unfold prov_authenticated in Ha.
   destruct (cr_basic cr) as [[i s]|].
   - destruct (find_client cl i) as [c'|] eqn:Hf'; [|discriminate].
     destruct (String.eqb (c_secret c') s) eqn:Hs; [|discriminate].
     inversion H; subst. rewrite Hf in Hf'. inversion Hf'; subst. rewrite Hs. apply orb_true_r.
   - destruct (String.eqb (cr_id cr) ""); [discriminate|]. inversion H; subst.
-    rewrite Hw in H2. destruct (is_public c); [reflexivity | discriminate].
+    destruct (c_auth c); try discriminate. reflexivity.
 Qed.
 
 (* canonical presentation is accepted by both routers *)
@@ -99,18 +96,18 @@ Qed.
 
 Lemma canonical_prov cl c cr :
   find_client cl (claimed cr) = Some c -> canonical c cr = true -> client_ok c = true ->
-  prov_client cl cr = inl (c_id c, c_web c).
+  exists a, prov_client cl cr = inl (c_id c, a) /\ prov_authenticated c a = true.
 Proof.
   intros Hf Hc Hok. pose proof (canonical_claimed _ _ Hc) as Hcl. rewrite Hcl in Hf.
-  destruct (client_ok_inv _ Hok) as [Hid [_ Hw]]. rewrite Hw.
-  unfold canonical in Hc. unfold prov_client, secret_ok, is_public.
+  pose proof (client_ok_inv _ Hok) as Hid.
+  unfold canonical in Hc. unfold prov_client, secret_ok, prov_authenticated.
   destruct (c_auth c), (cr_basic cr) as [[i s]|]; try discriminate.
   - repeat (apply andb_true_iff in Hc as [Hc ?]). apply String.eqb_eq in Hc. subst i.
-    rewrite Hf. rewrite String.eqb_sym. now rewrite H0.
+    rewrite Hf. rewrite String.eqb_sym. rewrite H0. eauto.
   - repeat (apply andb_true_iff in Hc as [Hc ?]). apply String.eqb_eq in Hc. subst i.
-    rewrite Hf. rewrite String.eqb_sym. now rewrite H0.
+    rewrite Hf. rewrite String.eqb_sym. rewrite H0. eauto.
   - apply andb_true_iff in Hc as [Hc ?]. apply String.eqb_eq in Hc. rewrite Hc.
-    destruct (String.eqb_spec (c_id c) ""); [contradiction | reflexivity].
+    destruct (String.eqb_spec (c_id c) ""); [contradiction | eauto].
 Qed.
 
 Lemma canonical_legacy cl c cr :
@@ -118,7 +115,7 @@ Lemma canonical_legacy cl c cr :
   legacy_client cl cr = inl c.
 Proof.
   intros Hf Hc Hok. pose proof (canonical_claimed _ _ Hc) as Hcl.
-  destruct (client_ok_inv _ Hok) as [Hid _].
+  pose proof (client_ok_inv _ Hok) as Hid.
   unfold legacy_client. unfold claimed in Hf, Hcl. unfold canonical in Hc.
   destruct (c_auth c) eqn:Ha, (cr_basic cr) as [[i s]|]; try discriminate.
   - repeat (apply andb_true_iff in Hc as [Hc ?]). subst i.
@@ -166,20 +163,19 @@ Lemma poll_tokens_inv cl st r cr dc now f sub client scopes idsub rf :
     d_client d = claimed cr /\ client = claimed cr /\
     d_done d = true /\ d_denied d = false /\ sub = d_subject d /\ scopes = d_scopes d /\
     f = FNone /\ (idsub = None \/ idsub = Some sub) /\
-    (client_ok c = true -> proves_identity c cr = true).
+    proves_identity c cr = true.
 Proof.
   unfold poll. destruct r.
   - destruct (prov_client cl cr) as [[id a]|e] eqn:Hp; [|discriminate].
     pose proof (prov_client_claimed _ _ _ _ Hp) as Hid. subst id.
     destruct (check_state st (claimed cr) dc now f) as [d|e] eqn:Hc; [|discriminate].
     destruct (find_client cl (claimed cr)) as [c|] eqn:Hf; [|discriminate].
-    destruct (Bool.eqb a (c_web c)) eqn:Ha; [|discriminate].
-    apply Bool.eqb_prop in Ha. subst a.
+    destruct (prov_authenticated c a) eqn:Ha; [|discriminate].
     destruct (check_state_ok _ _ _ _ _ _ Hc) as [Hfn [Hfd [Hcl [Hden Hdone]]]].
     unfold tokens_for. inversion 1; subst. exists d, c.
     repeat split; try assumption; try reflexivity.
     + destruct (string_in "openid" (d_scopes d)); [now right | now left].
-    + intro Hok. eapply prov_client_proves; eauto.
+    + eapply prov_client_proves; eauto.
   - destruct (legacy_client cl cr) as [c|e] eqn:Hl; [|discriminate].
     destruct (negb (c_dev c)); [discriminate|].
     destruct (String.eqb dc ""); [discriminate|].
@@ -189,7 +185,7 @@ Proof.
     unfold tokens_for. inversion 1; subst. exists d, c. rewrite Hid in *.
     repeat split; try assumption; try reflexivity.
     + destruct (string_in "openid" (d_scopes d)); [now right | now left].
-    + intros _. eapply legacy_client_proves; eauto.
+    + eapply legacy_client_proves; eauto.
 Qed.
 
 (* a canonical poll by a registered device client: refusals come from the
@@ -204,9 +200,9 @@ Lemma poll_canonical cl st r cr dc now f c :
     end.
 Proof.
   intros Hf Hc Hdev Hok Hdc. unfold poll. destruct r.
-  - rewrite (canonical_prov _ _ _ Hf Hc Hok).
+  - destruct (canonical_prov _ _ _ Hf Hc Hok) as [a [Hp Ha]]. rewrite Hp.
     destruct (check_state st (c_id c) dc now f); [|reflexivity].
-    rewrite <- (canonical_claimed _ _ Hc), Hf. now rewrite Bool.eqb_reflx.
+    rewrite <- (canonical_claimed _ _ Hc), Hf. now rewrite Ha.
   - rewrite (canonical_legacy _ _ _ Hf Hc Hok). rewrite Hdev. cbn [negb].
     destruct (String.eqb_spec dc ""); [contradiction | reflexivity].
 Qed.
@@ -280,7 +276,7 @@ Proof.
     destruct (poll_tokens_inv _ _ _ _ _ _ _ _ _ _ _ _ Hp)
       as [d [c [Hfd [Hfc [Hcl' [-> [Hdone [Hden [-> [-> [-> [Hid Hpr]]]]]]]]]]]].
     rewrite Hfd, Hfc, Hcl', !String.eqb_refl, Hdone, Hden, strs_eqb_refl.
-    rewrite Hpr by (eapply clients_ok_in; eauto; now apply find_client_some in Hfc).
+    rewrite Hpr.
     destruct Hid as [->| ->]; [reflexivity | now rewrite String.eqb_refl].
   - cbn [step_ok]. unfold refusal_ok.
     destruct (find_client cl (claimed cr)) as [c|] eqn:Hfc; [|reflexivity].
@@ -546,19 +542,18 @@ Proof.
   - intro Hd. destruct (I4 _ Hd) as [_ Hall]. rewrite (Hall d Hin eq_refl) in Hden. discriminate.
 Qed.
 
-Lemma only_to_initiator g cl tr st : forallb client_ok cl = true -> reach g cl tr st ->
+Lemma only_to_initiator g cl tr st : reach g cl tr st ->
   forall r cr dc now f sub client scopes idsub rf,
   poll cl st r cr dc now f = RTokens sub client scopes idsub rf ->
   client = claimed cr /\
   (exists uc exp, issued_ev tr dc uc (claimed cr) scopes exp) /\
   exists c, find_client cl (claimed cr) = Some c /\ proves_identity c cr = true.
 Proof.
-  intros Hcl Hr r cr dc now f sub client scopes idsub rf Hp.
+  intros Hr r cr dc now f sub client scopes idsub rf Hp.
   destruct (tokens_only_after_approval _ _ _ _ Hr _ _ _ _ _ _ _ _ _ _ Hp) as [uc [ex [Hi _]]].
   destruct (poll_tokens_inv _ _ _ _ _ _ _ _ _ _ _ _ Hp)
     as [d [c [Hfd [Hfc [Hcl' [-> [Hdone [Hden [-> [-> [-> [Hid Hpr]]]]]]]]]]]].
-  split; [reflexivity|]. split; [eauto|]. exists c. split; [exact Hfc|].
-  apply Hpr. eapply clients_ok_in; eauto. now apply find_client_some in Hfc.
+  split; [reflexivity|]. split; [eauto|]. exists c. split; [exact Hfc | exact Hpr].
 Qed.
 
 Lemma poll_answers g cl tr st : reach g cl tr st ->
@@ -647,7 +642,7 @@ Qed.
 (* ---- non-vacuity: a history in which every promised answer occurs ---------- *)
 Definition ex_cfg := mkCfg "https://op.example.com" "/device" ["B"; "C"; "D"; "F"] 4 2 5%Z.
 Definition ex_clients :=
-  [mkClient "web" "s3cr3t" true ABasic true true; mkClient "native" "" false ANone true false].
+  [mkClient "web" "s3cr3t" ABasic true true; mkClient "native" "" ANone true false].
 Definition ex_web := mkCreds (Some ("web", "s3cr3t")) "" "".
 Definition ex_native := mkCreds None "native" "".
 Definition ex_rnd : list nat := [1;2;3;4;5;6;7;8;9;10;11;12;13;14;15;16; 0;1;2;3].
@@ -673,8 +668,8 @@ Example history_nonvacuous :
 Proof. split; vm_compute; reflexivity. Qed.
 
 Example canonical_nonvacuous :
-  canonical (mkClient "web" "s3cr3t" true ABasic true true) ex_web = true /\
-  canonical (mkClient "native" "" false ANone true false) ex_native = true.
+  canonical (mkClient "web" "s3cr3t" ABasic true true) ex_web = true /\
+  canonical (mkClient "native" "" ANone true false) ex_native = true.
 Proof. split; reflexivity. Qed.
 
 Example expired_nonvacuous :
